@@ -501,6 +501,8 @@ pub unsafe extern "C" fn sendmsg(fd: c_int, msg: *const msghdr, _flags: c_int) -
     let iv1 = *m.msg_iov.add(1);
     let (fds, nfds) = if m.msg_controllen > 0 {
         let c = m.msg_control as *const libc::cmsghdr;
+        // the kernel copies in the whole control buffer: msg_controllen bytes, padding included
+        let _last: u8 = ptr::read_volatile((c as *const u8).add(m.msg_controllen as usize - 1));
         // well-formedness of the control message the crate built (part of C18's oracle)
         assert!(m.msg_controllen >= 16);
         assert!((*c).cmsg_level == libc::SOL_SOCKET && (*c).cmsg_type == libc::SCM_RIGHTS);
@@ -728,6 +730,12 @@ pub unsafe extern "C" fn poll(fds: *mut libc::pollfd, n: libc::nfds_t, timeout: 
     assert!(n == 1);
     K.polls += 1;
     K.last_poll_timeout = timeout;
+    if POLL_EINTR_ONCE {
+        // a signal handler ran in the waiting thread: poll(2) is never restarted
+        POLL_EINTR_ONCE = false;
+        ERRNO = libc::EINTR;
+        return -1;
+    }
     K.last_poll_events = (*fds).events;
     let o = obj_of((*fds).fd);
     if o < 0 {
@@ -991,6 +999,7 @@ pub unsafe fn ep_any_undelivered() -> bool {
     any
 }
 pub static mut LOST_WAKEUP: bool = false;
+pub static mut POLL_EINTR_ONCE: bool = false;
 /// consecutive end-of-stream results of plain recv() (the call the crate uses for follow-up fragments)
 pub static mut EOF_RECVS: u8 = 0;
 #[no_mangle]
@@ -1164,6 +1173,10 @@ pub fn exit_proc(owner: u8) {
 }
 pub fn set_poll_times_out(b: bool) {
     unsafe { K.poll_verdict = if b { 1 } else { 0 } }
+}
+/// the next poll(2) is interrupted by a signal (EINTR)
+pub fn set_poll_eintr_once(b: bool) {
+    unsafe { POLL_EINTR_ONCE = b }
 }
 pub fn errno() -> c_int {
     unsafe { ERRNO }
